@@ -278,8 +278,24 @@ pub fn panic_site(desc: &str) -> String {
     }
 }
 
+thread_local! {
+    /// First odometer decoding of the case being evaluated: (index that was decoded, dimension sizes). The history pass
+    /// (props::history_pass) reads it to learn which cases differ from the current one in exactly one coordinate.
+    static FIRST_COORDS: std::cell::RefCell<Option<(u64, Vec<u64>)>> = std::cell::RefCell::new(None);
+}
+
+pub fn take_first_coords() -> Option<(u64, Vec<u64>)> {
+    FIRST_COORDS.with(|c| c.borrow_mut().take())
+}
+
 /// Odometer over a list of dimension sizes: index -> coordinates.
 pub fn coords(mut idx: u64, dims: &[u64]) -> Vec<u64> {
+    FIRST_COORDS.with(|c| {
+        let mut c = c.borrow_mut();
+        if c.is_none() {
+            *c = Some((idx, dims.to_vec()));
+        }
+    });
     let mut out = vec![0u64; dims.len()];
     for (i, d) in dims.iter().enumerate().rev() {
         out[i] = idx % d;
